@@ -40,15 +40,18 @@ import (
 func init() { verifChecks["C17"] = runC17 }
 
 const (
-	c17Target = "target:6379"
-	c17Source = "source:6379"
-	c17Stale  = 12 * time.Hour
+	c17Target  = "target:6379"
+	c17Source  = "source:6379"
+	c17Source2 = "source2:6379"
+	c17Stale   = 12 * time.Hour
 )
 
 var (
 	c17IDA     = strings.Repeat("a", 40) // what the source reports as master_replid
 	c17IDB     = strings.Repeat("b", 40) // what the source reports as master_replid2 (id before the failover)
 	c17IDZ     = strings.Repeat("c", 40) // an id no source reports any more
+	c17IDP     = strings.Repeat("e", 40) // a second, unrelated source: its master_replid
+	c17IDQ     = strings.Repeat("f", 40) // ... and its master_replid2
 	c17NameOld = config.CheckpointKey
 	c17NameNew = config.CheckpointKey + "-{0ab}"
 )
@@ -68,10 +71,11 @@ type c17Scenario struct {
 	IDs     []string    `json:"ids"`   // replication ids the source reports: [current, previous]
 	Hash    [][2]string `json:"hash"`  // index hash: id -> checkpoint name (insertion order)
 	Entries []c17Entry  `json:"entries"`
-	Extra   []int       `json:"extra,omitempty"` // databases that hold an unrelated key
-	CrashAt int         `json:"crash_at"`        // the target dies after this many requests of the operation; -1 = never
-	Fault   string      `json:"fault,omitempty"` // what happens at crash_at: "" the target dies and the tool with it | "error-reply": request crash_at+1 is answered with an error, target and tool live on | "crash-revive": the target dies, comes back 2 s later, the tool lives on (its own retries run)
-	Order   string      `json:"order,omitempty"` // database visiting order of the operation (observed; required on replay)
+	Extra   []int       `json:"extra,omitempty"`            // databases that hold an unrelated key
+	Other   []string    `json:"other_source_ids,omitempty"` // a second, unrelated source replicating into the same target: [its current id, its previous id]; its entries and index entries are part of Entries / Hash
+	CrashAt int         `json:"crash_at"`                   // the target dies after this many requests of the operation; -1 = never
+	Fault   string      `json:"fault,omitempty"`            // what happens at crash_at: "" the target dies and the tool with it | "error-reply": request crash_at+1 is answered with an error, target and tool live on | "crash-revive": the target dies, comes back 2 s later, the tool lives on (its own retries run)
+	Order   string      `json:"order,omitempty"`            // database visiting order of the operation (observed; required on replay)
 	ROrder  string      `json:"recovery_order,omitempty"`
 }
 
@@ -97,29 +101,34 @@ type c17Pos struct {
 }
 
 type c17Obs struct {
-	machinery string
-	before    c17Pos
-	after     c17Pos
-	R         int // target requests the operation issued (until the crash)
-	crashed   bool
-	order     string
-	firstTry  string // visiting order of the operation's first attempt
-	rorder    string
-	opErr     string
-	bootErr   string
-	opLog     []string
-	recLog    []string
-	writes    int
-	dump      string
-	after2    c17Pos // position found by a second start, after the first one went on under the current id (SetRunId)
-	rec2Log   []string
-	gcLost    []string // newest entries of reported ids that the operation removed
-	nDB       int
-	beforeDBs []int // databases that tie exactly (same offset, same mtime) for the position held before
+	machinery  string
+	before     c17Pos
+	after      c17Pos
+	R          int // target requests the operation issued (until the crash)
+	crashed    bool
+	order      string
+	firstTry   string // visiting order of the operation's first attempt
+	rorder     string
+	opErr      string
+	bootErr    string
+	opLog      []string
+	recLog     []string
+	writes     int
+	dump       string
+	beforeY    c17Pos // the other source's position before the operation
+	beforeYDBs []int
+	afterY     c17Pos // ... and what its next start finds after the operation and the first source's starts
+	afterX3    c17Pos // the first source's start after the other source has started
+	recYLog    []string
+	after2     c17Pos // position found by a second start, after the first one went on under the current id (SetRunId)
+	rec2Log    []string
+	gcLost     []string // newest entries of reported ids that the operation removed
+	nDB        int
+	beforeDBs  []int // databases that tie exactly (same offset, same mtime) for the position held before
 }
 
-func c17RedisCfg(addr string) config.RedisConfig {
-	rc := config.RedisConfig{Addresses: []string{addr}, Type: config.RedisTypeStandalone, Otype: config.RedisTypeStandalone, Version: "7.2.0",
+func c17RedisCfg(addr ...string) config.RedisConfig {
+	rc := config.RedisConfig{Addresses: addr, Type: config.RedisTypeStandalone, Otype: config.RedisTypeStandalone, Version: "7.2.0",
 		ClusterOptions: &config.RedisClusterOptions{HandleMoveErr: true, HandleAskErr: true}}
 	if err := redis.FixTopology(&rc); err != nil {
 		panic(err)
@@ -204,6 +213,12 @@ func c17Exec(t *testing.T, scn c17Scenario) (o c17Obs) {
 		tgt := redisd.New(c17Target)
 		src := redisd.New(c17Source)
 		src.ReplID, src.ReplID2 = scn.IDs[0], scn.IDs[1]
+		srcAddrs := []string{c17Source}
+		if len(scn.Other) == 2 {
+			src2 := redisd.New(c17Source2)
+			src2.ReplID, src2.ReplID2 = scn.Other[0], scn.Other[1]
+			srcAddrs = append(srcAddrs, c17Source2)
+		}
 		now0 := time.Now().UnixNano()
 		ctx, cancel := context.WithCancel(context.Background())
 		defer cancel()
@@ -245,7 +260,7 @@ func c17Exec(t *testing.T, scn c17Scenario) (o c17Obs) {
 
 		// ---- global configuration (read by gcStaleCheckpoint)
 		sc := config.GetSyncerConfig()
-		inCfg, outCfg := c17RedisCfg(c17Source), c17RedisCfg(c17Target)
+		inCfg, outCfg := c17RedisCfg(srcAddrs...), c17RedisCfg(c17Target)
 		tr := true
 		sc.Input = &config.InputConfig{Redis: &inCfg}
 		sc.Output = &config.OutputConfig{Redis: &outCfg, Replay: config.ReplayConfig{ResumeFromBreakPoint: &tr}}
@@ -253,53 +268,66 @@ func c17Exec(t *testing.T, scn c17Scenario) (o c17Obs) {
 		sc.Cluster = nil
 
 		// ---- the position a start would have found before the operation
-		lookup := func() c17Pos {
+		lookup := func(ids []string) c17Pos {
 			cli, err := client.NewRedis(outCfg)
 			if err != nil {
 				return c17Pos{Err: err.Error()}
 			}
 			defer cli.Close()
-			name, _, err := checkpoint.GetCheckpointHash(cli, scn.IDs)
+			name, _, err := checkpoint.GetCheckpointHash(cli, ids)
 			if err != nil {
 				return c17Pos{Err: err.Error()}
 			}
 			if name == "" {
 				return c17Pos{None: true, Offset: -1, DB: -1}
 			}
-			cpi, db, err := checkpoint.GetCheckpoint(cli, name, scn.IDs)
+			cpi, db, err := checkpoint.GetCheckpoint(cli, name, ids)
 			if err != nil {
 				return c17Pos{Err: err.Error()}
 			}
 			return c17Pos{None: cpi.RunId == "?" || cpi.Offset < 0, Offset: cpi.Offset, DB: db, RunID: cpi.RunId}
 		}
-		o.before = lookup()
-		if o.before.Err != "" {
-			o.machinery = "harness: cannot look up the initial position: " + o.before.Err
-			return
-		}
-
 		// an exact tie (same offset AND same mtime in several databases) is resolved by
 		// iteration order already before the operation: every tying database is accepted
-		o.beforeDBs = []int{o.before.DB}
-		if !o.before.None {
-			name := scn.hashName(scn.IDs[0])
+		ties := func(ids []string, before c17Pos) []int {
+			dbs := []int{before.DB}
+			if before.None {
+				return dbs
+			}
+			name := scn.hashName(ids[0])
 			if name == "" {
-				name = scn.hashName(scn.IDs[1])
+				name = scn.hashName(ids[1])
 			}
 			var at *c17Entry
 			for i := range scn.Entries {
 				e := &scn.Entries[i]
-				if e.DB == o.before.DB && e.Name == name && e.Offset == o.before.Offset && (e.ID == scn.IDs[0] || e.ID == scn.IDs[1]) {
+				if e.DB == before.DB && e.Name == name && e.Offset == before.Offset && (e.ID == ids[0] || e.ID == ids[1]) {
 					at = e
 				}
 			}
 			if at != nil {
 				for _, e := range scn.Entries {
-					if e.DB != at.DB && e.Name == name && e.Offset == at.Offset && e.AgeNs == at.AgeNs && (e.ID == scn.IDs[0] || e.ID == scn.IDs[1]) {
-						o.beforeDBs = append(o.beforeDBs, e.DB)
+					if e.DB != at.DB && e.Name == name && e.Offset == at.Offset && e.AgeNs == at.AgeNs && (e.ID == ids[0] || e.ID == ids[1]) {
+						dbs = append(dbs, e.DB)
 					}
 				}
 			}
+			return dbs
+		}
+		o.before = lookup(scn.IDs)
+		if o.before.Err != "" {
+			o.machinery = "harness: cannot look up the initial position: " + o.before.Err
+			return
+		}
+		o.beforeDBs = ties(scn.IDs, o.before)
+		o.beforeY = c17Pos{None: true}
+		if len(scn.Other) == 2 {
+			o.beforeY = lookup(scn.Other)
+			if o.beforeY.Err != "" {
+				o.machinery = "harness: cannot look up the other source's initial position: " + o.beforeY.Err
+				return
+			}
+			o.beforeYDBs = ties(scn.Other, o.beforeY)
 		}
 
 		// ---- the operation, with the crash point
@@ -396,7 +424,7 @@ func c17Exec(t *testing.T, scn c17Scenario) (o c17Obs) {
 
 		// ---- GC clause: the newest entry of every id the source reports is still there
 		if scn.kind() == "gc" {
-			for _, id := range scn.IDs {
+			for _, id := range append(append([]string(nil), scn.IDs...), scn.Other...) {
 				name := scn.hashName(id)
 				if id == "" || name == "" {
 					continue
@@ -439,13 +467,14 @@ func c17Exec(t *testing.T, scn c17Scenario) (o c17Obs) {
 		time.Sleep(time.Second)
 		seq1 := tgt.NumReqs()
 		var ro *syncer.RedisOutput
+		startIDs := scn.IDs
 		start := func() c17Pos {
-			runID, err := syncer.VerifUpdateCheckpoint(outCfg, scn.Local, scn.IDs)
+			runID, err := syncer.VerifUpdateCheckpoint(outCfg, scn.Local, startIDs)
 			if err != nil {
 				return c17Pos{Err: "updateCheckpoint: " + err.Error()}
 			}
 			ro = syncer.NewRedisOutput(c17OutputCfg(scn.Local, runID))
-			sp, err := ro.StartPoint(ctx, scn.IDs)
+			sp, err := ro.StartPoint(ctx, startIDs)
 			if err != nil {
 				return c17Pos{Err: "StartPoint: " + err.Error()}
 			}
@@ -464,6 +493,18 @@ func c17Exec(t *testing.T, scn c17Scenario) (o c17Obs) {
 			}
 		}
 		o.rec2Log = c17Strs(tgt.Log()[recEnd:])
+		// ---- the other source sharing the checkpoint key starts too (same configured name), then the first one once more
+		o.afterY, o.afterX3 = o.beforeY, o.after2
+		if len(scn.Other) == 2 {
+			recY := tgt.NumReqs()
+			time.Sleep(time.Second)
+			startIDs = scn.Other
+			o.afterY = start()
+			time.Sleep(time.Second)
+			startIDs = scn.IDs
+			o.afterX3 = start()
+			o.recYLog = c17Strs(tgt.Log()[recY:])
+		}
 		recReqs := tgt.Log()[seq1:recEnd]
 		o.rorder = c17Signature(tgt.Log()[seq1:]) // both starts and the SetRunId in between: their visiting orders decide what the second start finds
 		o.recLog = c17Strs(recReqs)
@@ -532,6 +573,34 @@ func c17Judge(scn c17Scenario, o c17Obs) mc.Result {
 				return mc.Violation(which+" finds a smaller resume position than the one held before the operation", "C17:position-regressed:"+kind, d)
 			case !c17In(o.beforeDBs, after.DB):
 				return mc.Violation(which+" finds the resume position in another target database than the one that held it before the operation", "C17:db-changed:"+kind, d)
+			}
+		}
+	}
+	if len(scn.Other) == 2 {
+		type chk struct {
+			who, which string
+			before     c17Pos
+			dbs        []int
+			after      c17Pos
+		}
+		for _, c := range []chk{
+			{"the other source sharing the checkpoint key", "its next start", o.beforeY, o.beforeYDBs, o.afterY},
+			{"the source the operation was run for", "its start after the other source has started", o.before, o.beforeDBs, o.afterX3}} {
+			if c.before.None {
+				continue
+			}
+			d := detail()
+			d["other_source_position_before"], d["other_source_position_after"], d["first_source_third_start"], d["later_start_requests"] = o.beforeY, o.afterY, o.afterX3, o.recYLog
+			pre := c.who + ": " + c.which
+			switch {
+			case c.after.Err != "":
+				return mc.Violation(pre+" fails on a healthy target instead of finding the resume position", "C17:other-source:next-start-error:"+kind, d)
+			case c.after.None:
+				return mc.Violation(pre+" finds no resume position although one existed before the operation", "C17:other-source:position-lost:"+kind, d)
+			case c.after.Offset < c.before.Offset:
+				return mc.Violation(pre+" finds a smaller resume position than the one held before the operation", "C17:other-source:position-regressed:"+kind, d)
+			case !c17In(c.dbs, c.after.DB):
+				return mc.Violation(pre+" finds the resume position in another target database than before the operation", "C17:other-source:db-changed:"+kind, d)
 			}
 		}
 	}
@@ -659,6 +728,42 @@ func c17Scenarios(tier string) []c17Scenario {
 				// progress was made under the new id afterwards
 				add(c17Scenario{Label: lab + "/both-ids(progressed)/index-both", Op: "start", Local: c17NameNew, Hash: both, Entries: copyIn(old[best].DB, old[best].Offset+100), Extra: lay.extra})
 			}
+			// TWO unrelated sources replicate into this target and share the checkpoint key (both index entries point to the
+			// same name): whatever is done for the first one must leave the other one's position alone, and vice versa. The
+			// other source's entry sits in the database of the first source's newest entry (same hash) or in another one.
+			{
+				xs := mk(c17NameOld, c17IDA)
+				best := 0
+				for i := range xs {
+					if xs[i].Offset > xs[best].Offset || (xs[i].Offset == xs[best].Offset && xs[i].AgeNs < xs[best].AgeNs) {
+						best = i
+					}
+				}
+				elsewhere := 0
+				if xs[best].DB == 0 {
+					elsewhere = 1
+					for _, db := range append(append([]int(nil), lay.dbs...), lay.extra...) {
+						if db != 0 {
+							elsewhere = db
+							break
+						}
+					}
+				}
+				other := []string{c17IDP, c17IDQ}
+				for pi, ydb := range []int{xs[best].DB, elsewhere} {
+					y := c17Entry{DB: ydb, Name: c17NameOld, ID: c17IDP, Offset: 4242, AgeNs: int64(5 * time.Second)}
+					l2 := fmt.Sprintf("%s/two-sources(other in db%d)", lab, ydb)
+					add(c17Scenario{Label: l2, Op: "start", Local: c17NameNew, Hash: [][2]string{{c17IDA, c17NameOld}, {c17IDP, c17NameOld}}, Entries: append(mk(c17NameOld, c17IDA), y), Extra: lay.extra, Other: other})
+					if pi == 1 && tier != "thorough" {
+						continue // quick: re-id / SetRunId only with the other source's entry in the same hash
+					}
+					if len(lay.dbs)%2 == 0 || tier == "thorough" {
+						add(c17Scenario{Label: l2, Op: "reid", Local: c17NameOld, Hash: [][2]string{{c17IDB, c17NameOld}, {c17IDP, c17NameOld}}, Entries: append(mk(c17NameOld, c17IDB), y), Extra: lay.extra, Other: other})
+					} else {
+						add(c17Scenario{Label: l2, Op: "setrunid", Local: c17NameOld, Hash: [][2]string{{c17IDB, c17NameOld}, {c17IDP, c17NameOld}}, Entries: append(mk(c17NameOld, c17IDB), y), Extra: lay.extra, Other: other})
+					}
+				}
+			}
 			// the index already points to the new name; a leftover copy under the old name
 			left := mk(c17NameOld, c17IDA)
 			for i := range left {
@@ -760,6 +865,17 @@ func c17Scenarios(tier string) []c17Scenario {
 					cp := c17Entry{DB: old[best].DB, Name: c17NameOld, ID: c17IDA, Offset: old[best].Offset, AgeNs: young - 1}
 					add(c17Scenario{Label: lab + "/stored-under-both-ids", Op: "gc-cron", Local: c17NameOld, Hash: [][2]string{{c17IDB, c17NameOld}, {c17IDA, c17NameOld}}, Entries: append(old, cp), Extra: lay.extra})
 				}
+				if (c%9 == 0 || (tier == "thorough" && c%3 == 0)) && !thin(0) {
+					// a second source shares the key; its source reports its ids as well. Its entry: stale, in the first entry's database
+					// (same hash) when c is even, in another database otherwise
+					ydb := lay.dbs[0]
+					if c%2 == 1 {
+						ydb = (lay.dbs[len(lay.dbs)-1] + 1) % 3
+					}
+					y := c17Entry{DB: ydb, Name: c17NameOld, ID: c17IDP, Offset: 4242, AgeNs: S + 1}
+					add(c17Scenario{Label: lab + fmt.Sprintf("/two-sources(other in db%d)", ydb), Op: "gc-cron", Local: c17NameOld, Hash: [][2]string{{c17IDA, c17NameOld}, {c17IDP, c17NameOld}},
+						Entries: append(append([]c17Entry(nil), es...), y), Extra: lay.extra, Other: []string{c17IDP, c17IDQ}})
+				}
 				if c%6 == 0 && !thin(0) {
 					// the stored id is neither of the reported ones: everything stale may go, nothing else may break
 					add(c17Scenario{Label: lab + "/stored-under-unreported-id", Op: "gc-cron", Local: c17NameOld, Hash: [][2]string{{c17IDZ, c17NameOld}}, Entries: withID(c17IDZ), Extra: lay.extra})
@@ -833,28 +949,36 @@ func runC17(t *testing.T, rep *mc.Reporter) {
 		if res.Verdict == "violation" {
 			sigSeen[res.Sig]++
 			if sigSeen[res.Sig] <= 2 {
-				// reproduce twice under the same visiting orders
+				// reproduce twice: under exactly the same visiting orders (operation and every later start) if they come up
+				// again within the budget; the later starts' orders multiply (up to six loops with rare rotations), so as a
+				// fall-back a re-run with the same order of the OPERATION that breaks the same clause confirms it as well
 				for k := 0; k < 2 && res.Verdict == "violation"; k++ {
-					found := false
-					for try := 0; try < 20000; try++ {
+					found, sameSig := false, false
+					for try := 0; try < 4000; try++ {
 						o2 := c17Exec(t, scn)
 						if o2.machinery != "" {
 							res = mc.Result{Verdict: "machinery", Clause: o2.machinery}
 							found = true
 							break
 						}
-						if o2.order != o.order || o2.rorder != o.rorder {
+						if o2.order != o.order {
+							continue
+						}
+						r2 := c17Judge(scn, o2)
+						if r2.Verdict == res.Verdict && r2.Sig == res.Sig {
+							sameSig = true
+						}
+						if o2.rorder != o.rorder {
 							continue
 						}
 						found = true
-						r2 := c17Judge(scn, o2)
 						if r2.Verdict != res.Verdict || r2.Sig != res.Sig {
 							res = mc.Result{Verdict: "machinery", Clause: fmt.Sprintf("violation not reproducible under the same visiting order: first=%s now=%s/%s", res.Sig, r2.Verdict, r2.Sig), Detail: res.Detail}
 						}
 						break
 					}
-					if !found {
-						res = mc.Result{Verdict: "machinery", Clause: "could not reproduce the visiting order of a violation in 20000 executions", Detail: res.Detail}
+					if !found && !sameSig {
+						res = mc.Result{Verdict: "machinery", Clause: "could not reproduce a violation (neither its visiting orders nor its clause came up again in 4000 executions)", Detail: res.Detail}
 					}
 				}
 			}
